@@ -1,8 +1,11 @@
 (* Corr/C09.v — executable check for one C09 case: a history of public POSet calls.
    The carrier is nat; [leq a b] is a lookup in the relation matrix of the case.  The model of
    the code and the cache-free spec machine are run on the same history; the outputs of every
-   step, and of all queries on the final state, are compared with the implementation's. *)
-From FCA Require Export Corr.Common Spec.PosetSpec Model.Poset.
+   step, and of all queries on the final state, are compared with the implementation's.
+   Third level: the implementation's raw cache dictionaries after the history must be sound
+   (spec side) and, for <= 8 carriers, equal to the model's caches entry by entry (model side:
+   the model's caching discipline is exact there). *)
+From FCA Require Export Corr.Common Spec.PosetSpec Model.Poset Model.PosetExt.
 
 Definition mleq (m : list (list bool)) (a b : nat) : bool := nth b (nth a m []) false.
 
@@ -34,40 +37,69 @@ Definition final_queries (n : nat) : list (op nat) :=
            (all_pairs n) ++
   [QLen].
 
+Definition xout_eqb (x y : xout nat) : bool :=
+  match x, y with
+  | XO a, XO b => out_eqb a b
+  | XTwo a b, XTwo c d => nat_list_eqb a c && nat_list_eqb b d
+  | XMap a, XMap b => list_eqb nat_list_eqb a b
+  | _, _ => false
+  end.
+Definition xouts_eqb := list_eqb xout_eqb.
+
+(* the raw dictionaries _cache_leq, _cache_descendants, _cache_ancestors, _cache_children,
+   _cache_parents read from the object *)
+Record raw_caches := {
+  r_leq : lcache; r_desc : cache; r_anc : cache; r_ch : cache; r_par : cache
+}.
+
 Record c09_case := {
   k_matrix : list (list bool);
   k_init : list nat;
   k_cache : bool;
   k_cd : option cache;                (* a true children_dict, or None *)
-  k_ops : list (op nat);
-  k_impl : list (out nat);            (* implementation: output of every step *)
+  k_ops : list (xop nat);
+  k_impl : list (xout nat);           (* implementation: output of every step *)
+  k_raw : raw_caches;                 (* implementation: the raw caches after the history (all empty when uncached) *)
+  k_raw_exact : bool;                 (* compare them entry by entry with the model's caches as well *)
   k_final : list (out nat)            (* implementation: all queries on the final state, then elements *)
 }.
 
-Definition c09_model (c : c09_case) : option (list (out nat) * list (out nat)) :=
-  let leq := mleq (k_matrix c) in
-  let s0 := match k_cd c with
-            | Some cd => if k_cache c then init_cd nat (k_init c) cd else Some (init nat (k_init c) false)
-            | None => Some (init nat (k_init c) (k_cache c))
-            end in
-  match s0 with
-  | None => None
-  | Some s0 =>
-      let '(s1, outs) := run nat leq Nat.eqb s0 (k_ops c) in
-      let '(s2, fin) := run nat leq Nat.eqb s1 (final_queries (length (els s1))) in
-      Some (outs, fin ++ [OEls (els s2)])
+Definition c09_init (c : c09_case) : option (state nat) :=
+  match k_cd c with
+  | Some cd => if k_cache c then init_cd nat (k_init c) cd else Some (init nat (k_init c) false)
+  | None => Some (init nat (k_init c) (k_cache c))
   end.
 
-Definition c09_spec (c : c09_case) : list (out nat) * list (out nat) :=
+Definition c09_model (c : c09_case) : option (list (xout nat) * list (out nat) * bool) :=
   let leq := mleq (k_matrix c) in
-  let '(e1, outs) := spec_run nat leq Nat.eqb (k_init c) (k_cache c) (k_ops c) in
-  (outs, map (spec_query nat leq Nat.eqb e1 (k_cache c)) (final_queries (length e1)) ++ [OEls e1]).
+  match c09_init c with
+  | None => None
+  | Some s0 =>
+      let '(s1, outs) := xrun nat leq Nat.eqb s0 (k_ops c) in
+      let '(s2, fin) := run nat leq Nat.eqb s1 (final_queries (length (els s1))) in
+      let r := k_raw c in
+      Some (outs, fin ++ [OEls (els s2)],
+            negb (k_raw_exact c) || caches_same nat (r_leq r) (r_desc r) (r_anc r) (r_ch r) (r_par r) s1)
+  end.
+
+(* answers of the cache-free machine, and whether the implementation's raw caches are sound
+   (every entry equals the spec value on the elements after the history) *)
+Definition c09_spec (c : c09_case) : list (xout nat) * list (out nat) * bool :=
+  let leq := mleq (k_matrix c) in
+  let '(e1, outs) := xspec_run nat leq Nat.eqb (k_init c) (k_cache c) (k_ops c) in
+  let r := k_raw c in
+  (outs, map (spec_query nat leq Nat.eqb e1 (k_cache c)) (final_queries (length e1)) ++ [OEls e1],
+   raw_sound nat leq e1 (r_leq r) (r_desc r) (r_anc r) (r_ch r) (r_par r)).
 
 Definition c09_check (c : c09_case) : nat :=
   let same := match c09_model c with
-              | Some (o, f) => outs_eqb (k_impl c) o && outs_eqb (k_final c) f
+              | Some (o, f, cs) => xouts_eqb (k_impl c) o && outs_eqb (k_final c) f && cs
               | None => false end in
-  let '(so, sf) := c09_spec c in
-  code_of same (outs_eqb (k_impl c) so && outs_eqb (k_final c) sf).
+  let '(so, sf, rs) := c09_spec c in
+  code_of same (xouts_eqb (k_impl c) so && outs_eqb (k_final c) sf && rs).
 
-Definition c09_show (c : c09_case) := (c09_model c, c09_spec c).
+Definition c09_show (c : c09_case) :=
+  (c09_model c, c09_spec c,
+   match c09_init c with
+   | Some s0 => Some (fst (xrun nat (mleq (k_matrix c)) Nat.eqb s0 (k_ops c)))
+   | None => None end).
